@@ -374,6 +374,7 @@ func Guard(sigPrefix string, f func() *Failure) (fail *Failure) {
 func (r *Rec) runProp(sub string, c any, prop func(o *Obs) *Failure, count bool) *Failure {
 	if r.infl {
 		r.writeInflight(sub, c)
+		dieRec, dieSub, dieCase = r, sub, c
 	}
 	o := &Obs{}
 	f := Guard(r.ID+"/"+sub, func() *Failure { return prop(o) })
@@ -404,6 +405,24 @@ func (r *Rec) runProp(sub string, c any, prop func(o *Obs) *Failure, count bool)
 		return nil // excluded by signature: the search continues behind it
 	}
 	return f
+}
+
+var dieRec *Rec
+var dieSub string
+var dieCase any
+
+// Die ends the process from inside a property when the engine has wedged global state (a leaked
+// package-level mutex): the in-flight case file is rewritten with the precise signature and the
+// process exits with status 3; the driver confirms the case by replay and reports it.
+func Die(sig, msg string) {
+	fmt.Fprintf(Out, "DIE sig=%s\n  %s\n", sig, msg)
+	if dieRec != nil {
+		cb, _ := json.Marshal(dieCase)
+		rf := replayFile{Property: dieRec.ID, Sig: sig, Sub: dieSub, Seed: dieRec.Seed, Tier: dieRec.Tier, Case: cb, Observed: msg}
+		b, _ := json.Marshal(rf)
+		_ = os.WriteFile(dieRec.inflightPath(), b, 0o644)
+	}
+	os.Exit(3)
 }
 
 func (r *Rec) inflightPath() string {
